@@ -651,7 +651,7 @@ package raft
 //@     && msgs_nonnil(r.msgs) && msgs_nonnil(r.msgsAfterAppend) && r.Term < 9223372036854775808
 //@     && (r.msgs.arr != r.msgsAfterAppend.arr || r.msgs.arr == 0) && (r.msgs.arr != r.pendingReadIndexMessages.arr || r.msgs.arr == 0)
 //@     && (r.msgsAfterAppend.arr != r.pendingReadIndexMessages.arr || r.msgsAfterAppend.arr == 0)
-//@     && (r.state == StateLeader ==> r.lead == r.id)
+//@     && (r.state == StateLeader <==> r.lead == r.id) && (r.state == StatePreCandidate ==> r.preVote)
 
 //@ -- C07: the hard state (Term, Vote, commit) moves forward only: two-state invariant proved for every function that can write it
 //@ pred hs_monotone(r *raft) := r.Term >= old(r.Term) && (r.Term == old(r.Term) ==> (r.Vote == old(r.Vote) || old(r.Vote) == 0))
@@ -767,6 +767,7 @@ package raft
 //@ -- raft.go leaf functions
 
 //@ pred raft_kept_but_msgs(r *raft) := r.Term == old(r.Term) && r.Vote == old(r.Vote) && r.state == old(r.state) && r.lead == old(r.lead) && r.id == old(r.id)
+//@     && r.step == old(r.step) && r.tick == old(r.tick) && r.electionElapsed == old(r.electionElapsed) && r.heartbeatElapsed == old(r.heartbeatElapsed)
 //@     && r.raftLog == old(r.raftLog) && r.readOnly == old(r.readOnly) && r.leadTransferee == old(r.leadTransferee) && r.pendingConfIndex == old(r.pendingConfIndex)
 //@     && r.uncommittedSize == old(r.uncommittedSize) && r.electionElapsed == old(r.electionElapsed) && r.heartbeatElapsed == old(r.heartbeatElapsed)
 //@     && r.isLearner == old(r.isLearner) && r.randomizedElectionTimeout == old(r.randomizedElectionTimeout)
@@ -928,12 +929,17 @@ package raft
 //@   ensures #no-entries-when-full [C16] result && lastMsg(r).GetType() == pb.MsgApp && old(r.trk.Progress[to].State == tracker.StateReplicate && fullSpec(r.trk.Progress[to].Inflights)) ==> len(lastMsg(r).Entries) == 0
 //@   ensures #match-kept [C06] r.trk.Progress[to].Match == old(r.trk.Progress[to].Match) && r.trk.Progress == old(r.trk.Progress)
 //@   ensures #deferred-untouched [C05] r.msgsAfterAppend == old(r.msgsAfterAppend)
+//@   ensures #next-in-log [C14] progress_in_log(r, r.trk.Progress[to]) && log_last(r.raftLog) == old(log_last(r.raftLog))
 //@   ensures #rest raft_kept_but_msgs(r) && r.raftLog.committed == old(r.raftLog.committed)
 //@   ensures #wf wf_raft(r) && hs_monotone(r)
 
 //@ func raft.raft.sendAppend [C16]
 //@   requires wf_raft(r) && r.state == StateLeader
 //@   requires #peer [C14] has(r.trk.Progress, to) && to != r.id && progress_in_log(r, r.trk.Progress[to])
+//@   reveal wf_trk
+//@   frame tracker.Progress: r.trk.Progress[to]
+//@   frame tracker.Inflights: r.trk.Progress[to].Inflights
+//@   ensures #next-in-log [C14] progress_in_log(r, r.trk.Progress[to]) && log_last(r.raftLog) == old(log_last(r.raftLog))
 //@   ensures #at-most-one [C16] len(r.msgs) <= old(len(r.msgs)) + 1 && len(r.msgs) >= old(len(r.msgs))
 //@   ensures #deferred-untouched [C05] r.msgsAfterAppend == old(r.msgsAfterAppend)
 //@   ensures #match-kept [C06] r.trk.Progress[to].Match == old(r.trk.Progress[to].Match) && r.trk.Progress == old(r.trk.Progress)
@@ -1005,6 +1011,7 @@ package raft
 //@ func raft.raft.becomeFollower [C07 C02 C17]
 //@   requires wf_raft(r)
 //@   requires #term-not-lower [C07] term >= r.Term && term < 9223372036854775808 && r.trk.MaxInflight >= 1
+//@   requires #lead-not-self [C14] lead != r.id
 //@   ensures #follower [C02] r.state == StateFollower && r.lead == lead && r.Term == term && r.Vote == (term == old(r.Term) ? old(r.Vote) : 0)
 //@   ensures #cleared r.electionElapsed == 0 && r.leadTransferee == 0 && r.pendingConfIndex == 0 && r.uncommittedSize == 0 && len(r.trk.Votes) == 0
 //@   ensures #kept r.id == old(r.id) && r.raftLog == old(r.raftLog) && r.msgs == old(r.msgs) && r.msgsAfterAppend == old(r.msgsAfterAppend)
@@ -1022,6 +1029,7 @@ package raft
 
 //@ func raft.raft.becomePreCandidate [C17 C07 C14]
 //@   requires wf_raft(r)
+//@   requires #prevote-enabled [C17] r.preVote
 //@   requires #not-leader [C14] r.state != StateLeader
 //@   reveal wf_trk, trk_distinct
 //@   ensures #term-vote-unchanged [C17 C07] r.state == StatePreCandidate && r.Term == old(r.Term) && r.Vote == old(r.Vote) && r.lead == 0 && len(r.trk.Votes) == 0
@@ -1034,6 +1042,8 @@ package raft
 //@   requires wf_raft(r)
 //@   requires #not-follower [C14] r.state != StateFollower
 //@   requires #member [C14] has(r.trk.Progress, r.id)
+//@   -- the legitimate-transition precondition (C02): a node turns leader only on a vote tally that is Won for its configuration
+//@   requires #won [C02] jointVoteSpec(r.trk.Voters, r.trk.Votes) == quorum.VoteWon
 //@   requires #term-not-behind-log [C03] log_term(r.raftLog, log_last(r.raftLog)) <= r.Term && r.Term >= 1
 //@   requires #a-arith log_last(r.raftLog) + 1 < 4611686018427387904 && r.trk.MaxInflight >= 1
 //@   reveal wf_trk, trk_distinct
@@ -1046,6 +1056,7 @@ package raft
 //@   ensures #peers-reset [C04 C06] forall id uint64 :: has(r.trk.Progress, id) && id != r.id ==> r.trk.Progress[id].Match == 0 && r.trk.Progress[id].Next == old(log_last(r.raftLog)) + 1
 //@   ensures #committed-prefix-stable [C01] forall i int :: i <= old(log_last(r.raftLog)) && old(log_has(r.raftLog, i)) ==> log_has(r.raftLog, i) && log_term(r.raftLog, i) == old(log_term(r.raftLog, i))
 //@   ensures #kept r.id == old(r.id) && r.raftLog == old(r.raftLog) && r.raftLog.committed == old(r.raftLog.committed) && r.trk.Progress == old(r.trk.Progress)
+//@   ensures #progress-in-log [C06 C14] forall id uint64 :: has(r.trk.Progress, id) ==> progress_in_log(r, r.trk.Progress[id])
 //@   ensures #wf wf_raft(r) && hs_monotone(r) && typestate(r)
 
 //@ -- ------------------------------------------------------------------------------------------
@@ -1073,6 +1084,9 @@ package raft
 //@ func raft.raft.campaign [C02 C17 C05 C19]
 //@   requires wf_raft(r)
 //@   requires #not-leader [C14] r.state != StateLeader
+//@   requires #prevote-enabled [C17] t == campaignPreElection ==> r.preVote
+//@   -- the legitimate-transition precondition (C17): a pre-candidate starts the real election only on a pre-vote tally that is Won
+//@   requires #prevote-won [C17] t != campaignPreElection && r.state == StatePreCandidate ==> jointVoteSpec(r.trk.Voters, r.trk.Votes) == quorum.VoteWon
 //@   requires #a-arith r.Term + 1 < 9223372036854775808 && r.trk.MaxInflight >= 1
 //@   reveal wf_raftLog, wf_unstable, wf_storage
 //@   ensures #pre-election [C17] t == campaignPreElection ==> r.state == StatePreCandidate && r.Term == old(r.Term) && r.Vote == old(r.Vote)
@@ -1205,3 +1219,125 @@ package raft
 //@   ensures #wf wf_raft(r) && hs_monotone(r)
 //@   loop 1 invariant #not-found !found && 0 <= iter && iter <= 3
 //@   loop 2 invariant #not-found !found && 0 <= iter && iter <= len(set)
+
+//@ -- E-msg-wf: a MsgSnap carries a fully populated snapshot (what raftLog.snapshot()/Storage.Snapshot() hand out); the
+//@ -- Ensure* helpers are then no-ops. The nil-tolerant paths of those helpers are not covered by the proof.
+//@ pred snap_populated(s *pb.Snapshot) := s != nil && s.Metadata != nil && s.Metadata.Index != nil && s.Metadata.Term != nil && s.Metadata.ConfState != nil
+//@     && s.Metadata.ConfState.AutoLeave != nil
+//@ func raftpb.EnsureSnapshot
+//@   inline
+//@ func raftpb.EnsureSnapshotMetadata
+//@   inline
+
+//@ -- the reply to a MsgSnap acknowledges exactly the commit index: after an install commit == last == snapshot index; an
+//@ -- ignored snapshot must not acknowledge anything beyond what is known committed (the leader takes the index as a match)
+//@ func raft.raft.handleSnapshot [C09 C06 C05 C07 C14]
+//@   requires wf_raft(r) && m != nil
+//@   requires #not-self [C14] m.GetFrom() != r.id
+//@   requires #a-arith snapIndex(m.Snapshot) < 4611686018427387904 && r.Term + 1 < 9223372036854775808 && r.trk.MaxInflight >= 1
+//@   requires #snap-wf [C14] snap_populated(m.Snapshot) && confStateOK(m.Snapshot.Metadata.ConfState)
+//@   reveal wf_raftLog
+//@   ensures #one-deferred-reply [C05] len(r.msgsAfterAppend) == old(len(r.msgsAfterAppend)) + 1 && r.msgs == old(r.msgs)
+//@        && lastDeferred(r).GetType() == pb.MsgAppResp && lastDeferred(r).GetTo() == old(m.GetFrom()) && !lastDeferred(r).GetReject()
+//@   ensures #ack-is-commit [C06 C09] lastDeferred(r).GetIndex() == r.raftLog.committed && r.raftLog.committed <= log_last(r.raftLog)
+//@   ensures #commit-monotone [C07 C09] r.raftLog.committed >= old(r.raftLog.committed)
+//@   ensures #follower-kept [C07] old(r.state) == StateFollower ==> raft_kept_but_msgs(r)
+//@   ensures #never-below-snapshot [C09] old(r.state) == StateFollower ==> r.raftLog.committed == old(r.raftLog.committed) || r.raftLog.committed == old(snapIndex(m.Snapshot))
+//@   ensures #wf wf_raft(r) && hs_monotone(r)
+
+//@ -- ------------------------------------------------------------------------------------------
+//@ -- raft.go: campaigning is gated (C10: not while a committed configuration change is unapplied; C17: only promotable non-leaders)
+
+//@ pred node_unchanged(r *raft) := raft_kept_but_msgs(r) && r.msgs == old(r.msgs) && r.msgsAfterAppend == old(r.msgsAfterAppend) && log_cursors_kept(r.raftLog)
+//@     && r.trk.Progress == old(r.trk.Progress) && r.trk.Votes == old(r.trk.Votes) && r.electionElapsed == old(r.electionElapsed)
+
+//@ func raft.raft.hup [C10 C17 C02 C07]
+//@   requires wf_raft(r)
+//@   requires #prevote-not-skipped [C17] (t == campaignPreElection ==> r.preVote) && (r.state == StatePreCandidate ==> t == campaignPreElection)
+//@   requires #a-arith r.Term + 1 < 9223372036854775808 && r.trk.MaxInflight >= 1
+//@   ensures #leader-ignores [C02] old(r.state) == StateLeader ==> node_unchanged(r)
+//@   ensures #unpromotable-ignored [C17 C10] old(!r.promotable()) ==> node_unchanged(r)
+//@   ensures #conf-gate [C10] old(r.raftLog.applied < r.raftLog.committed && confChangeIn(r.raftLog, r.raftLog.applied + 1, r.raftLog.committed + 1)) ==> node_unchanged(r)
+//@   ensures #campaigns [C02 C17] r.Term != old(r.Term) || r.state != old(r.state) ==> old(r.state != StateLeader && r.promotable())
+//@        && (t == campaignPreElection ? r.state == StatePreCandidate && r.Term == old(r.Term) && r.Vote == old(r.Vote) : r.state == StateCandidate && r.Term == old(r.Term) + 1 && r.Vote == r.id)
+//@   ensures #kept r.id == old(r.id) && r.raftLog == old(r.raftLog) && r.raftLog.committed == old(r.raftLog.committed) && r.trk.Progress == old(r.trk.Progress)
+//@        && log_last(r.raftLog) == old(log_last(r.raftLog))
+//@   ensures #typestate old(typestate(r)) ==> typestate(r)
+//@   ensures #wf wf_raft(r) && hs_monotone(r)
+
+//@ -- ------------------------------------------------------------------------------------------
+//@ -- raft.go: the per-role step functions. E-msg-wf (DESIGN §3.4) in predicate form: what this library's own senders guarantee
+//@ -- about the messages a node is stepped with (each conjunct is a postcondition of the corresponding sender).
+
+//@ pred app_wf(r *raft, m *pb.Message) := m.GetFrom() != r.id && entriesFrom(m.Entries, m.GetIndex() + 1) && termsMonotone(m.Entries)
+//@     && (len(m.Entries) > 0 ==> m.GetLogTerm() <= eterm(m.Entries[0])) && m.GetIndex() + len(m.Entries) < 4611686018427387904
+//@     && (matchesAt(r.raftLog, m.GetIndex(), m.GetLogTerm()) ==> (forall p int :: m.Entries.off <= p && p < m.Entries.off + len(m.Entries)
+//@        && eindex(elem(m.Entries, p)) <= r.raftLog.committed ==> matchesAt(r.raftLog, eindex(elem(m.Entries, p)), eterm(elem(m.Entries, p)))))
+//@ pred hb_wf(r *raft, m *pb.Message) := m.GetFrom() != r.id && m.GetCommit() <= log_last(r.raftLog)
+//@ pred snap_wf(r *raft, m *pb.Message) := m.GetFrom() != r.id && snapIndex(m.Snapshot) < 4611686018427387904 && snap_populated(m.Snapshot) && confStateOK(m.Snapshot.Metadata.ConfState)
+//@ pred fwd_type(t pb.MessageType) := t == pb.MsgProp || t == pb.MsgTransferLeader || t == pb.MsgReadIndex
+//@ pred leader_msg_wf(r *raft, m *pb.Message) := (m.GetType() == pb.MsgApp ==> app_wf(r, m)) && (m.GetType() == pb.MsgHeartbeat ==> hb_wf(r, m))
+//@     && (m.GetType() == pb.MsgSnap ==> snap_wf(r, m))
+
+//@ func raft.stepFollower [C20 C17 C11 C05 C07 C14 C03 C06 C09]
+//@   requires wf_raft(r) && typestate(r) && m != nil
+//@   requires #role r.state == StateFollower
+//@   requires #a-arith r.Term + 1 < 9223372036854775808 && r.trk.MaxInflight >= 1
+//@   requires #leader-msg-wf [C14] leader_msg_wf(r, m)
+//@   -- a forwarded local message carries no term (a follower never receives one that another node already stamped: election safety)
+//@   requires #forward-term-unset [C14] fwd_type(m.GetType()) && r.lead != 0 ==> m.GetTerm() == 0
+//@   reveal wf_readOnly
+//@   ensures #prop-dropped [C20] old(m.GetType() == pb.MsgProp && (r.lead == 0 || r.disableProposalForwarding)) ==> result == ErrProposalDropped && node_unchanged(r)
+//@   ensures #prop-forwarded [C20] old(m.GetType() == pb.MsgProp && r.lead != 0 && !r.disableProposalForwarding) ==> result == nil && len(r.msgs) == old(len(r.msgs)) + 1
+//@        && r.msgs[old(len(r.msgs))] == m && m.GetTo() == r.lead && m.GetType() == pb.MsgProp && m.Entries == old(m.Entries) && r.msgsAfterAppend == old(r.msgsAfterAppend)
+//@        && log_cursors_kept(r.raftLog) && log_last(r.raftLog) == old(log_last(r.raftLog))
+//@   ensures #leader-contact [C17] old(m.GetType() == pb.MsgApp || m.GetType() == pb.MsgHeartbeat || m.GetType() == pb.MsgSnap) ==> r.electionElapsed == 0 && r.lead == old(m.GetFrom())
+//@   ensures #term-vote-kept [C07 C17] old(m.GetType()) != pb.MsgTimeoutNow ==> r.Term == old(r.Term) && r.Vote == old(r.Vote) && r.state == StateFollower
+//@   ensures #timeout-now [C17] old(m.GetType()) == pb.MsgTimeoutNow && r.Term != old(r.Term) ==> r.state == StateCandidate && r.Term == old(r.Term) + 1 && r.Vote == r.id
+//@   ensures #forget-leader [C17] old(m.GetType()) == pb.MsgForgetLeader ==> r.lead == (old(r.readOnly.option) == ReadOnlyLeaseBased ? old(r.lead) : 0)
+//@   ensures #read-index-resp [C11] old(m.GetType() == pb.MsgReadIndexResp && len(m.Entries) == 1) ==> len(r.readStates) == old(len(r.readStates)) + 1
+//@        && r.readStates[old(len(r.readStates))].Index == old(m.GetIndex())
+//@   ensures #replies-deferred [C05] old(m.GetType() == pb.MsgApp || m.GetType() == pb.MsgSnap) ==> r.msgs == old(r.msgs) && len(r.msgsAfterAppend) == old(len(r.msgsAfterAppend)) + 1
+//@   ensures #commit-monotone [C07] r.raftLog.committed >= old(r.raftLog.committed)
+//@   ensures #wf wf_raft(r) && hs_monotone(r) && typestate(r)
+
+//@ -- leader-side replication invariant: every follower cursor lies within the leader's log
+//@ pred wf_leader(r *raft) := forall id uint64 :: has(r.trk.Progress, id) ==> progress_in_log(r, r.trk.Progress[id])
+//@ pred matches_kept(r *raft) := r.trk.Progress == old(r.trk.Progress) && (forall id uint64 :: has(r.trk.Progress, id) ==> r.trk.Progress[id].Match == old(r.trk.Progress[id].Match))
+
+//@ func raft.raft.bcastAppend [C16 C05 C06 C19]
+//@   requires wf_raft(r) && r.state == StateLeader
+//@   requires #progress-in-log [C14] wf_leader(r)
+//@   reveal trk_distinct, wf_trk
+//@   visit 1 invariant #state wf_raft(r) && raft_kept_but_msgs(r) && r.msgsAfterAppend == old(r.msgsAfterAppend) && r.raftLog.committed == old(r.raftLog.committed)
+//@        && len(r.msgs) >= old(len(r.msgs)) && log_last(r.raftLog) == old(log_last(r.raftLog))
+//@   visit 1 invariant #in-log wf_leader(r)
+//@   visit 1 invariant #matches matches_kept(r)
+//@   ensures #deferred-untouched [C05] r.msgsAfterAppend == old(r.msgsAfterAppend) && len(r.msgs) >= old(len(r.msgs))
+//@   ensures #match-kept [C06] matches_kept(r)
+//@   ensures #rest raft_kept_but_msgs(r) && r.raftLog.committed == old(r.raftLog.committed) && log_last(r.raftLog) == old(log_last(r.raftLog))
+//@   ensures #wf wf_raft(r) && wf_leader(r) && hs_monotone(r)
+
+//@ pred term_ge_log(r *raft) := log_term(r.raftLog, log_last(r.raftLog)) <= r.Term
+//@ pred candidate_member(r *raft) := r.state == StateCandidate || r.state == StatePreCandidate ==> has(r.trk.Progress, r.id) && r.Term + 1 < 9223372036854775808
+
+//@ func raft.stepCandidate [C02 C17 C20 C04 C07 C05 C14]
+//@   requires wf_raft(r) && typestate(r) && m != nil
+//@   requires #role r.state == StateCandidate || r.state == StatePreCandidate
+//@   requires #a-arith r.Term + 1 < 9223372036854775808 && r.trk.MaxInflight >= 1 && log_last(r.raftLog) + 1 < 4611686018427387904
+//@   requires #leader-msg-wf [C14] leader_msg_wf(r, m)
+//@   -- a message from the leader of this term reaches the handlers only at the node's own term (Step's preamble)
+//@   requires #same-term [C14] m.GetType() == pb.MsgApp || m.GetType() == pb.MsgHeartbeat || m.GetType() == pb.MsgSnap ==> m.GetTerm() == r.Term
+//@   requires #member [C14] candidate_member(r)
+//@   requires #term-not-behind-log [C03 C14] term_ge_log(r) && (r.state == StateCandidate ==> r.Term >= 1)
+//@   ensures #prop-dropped [C20] old(m.GetType()) == pb.MsgProp ==> result == ErrProposalDropped && node_unchanged(r)
+//@   ensures #steps-down-for-leader [C02 C04] old(m.GetType() == pb.MsgApp || m.GetType() == pb.MsgHeartbeat || m.GetType() == pb.MsgSnap) ==> r.state == StateFollower
+//@        && r.lead == old(m.GetFrom()) && r.Term == old(r.Term) && r.Vote == old(r.Vote)
+//@   ensures #leader-only-on-won [C02] r.state == StateLeader ==> old(r.state) == StateCandidate && old(m.GetType()) == pb.MsgVoteResp
+//@        && r.Term == old(r.Term) && r.Vote == old(r.Vote)
+//@   ensures #term-only-up-on-prevote-won [C17] r.Term != old(r.Term) ==> old(r.state) == StatePreCandidate && old(m.GetType()) == pb.MsgPreVoteResp
+//@        && r.Term == old(r.Term) + 1 && r.state == StateCandidate && r.Vote == r.id
+//@   ensures #ignored [C17] old(m.GetType()) != pb.MsgProp && old(m.GetType()) != pb.MsgApp && old(m.GetType()) != pb.MsgHeartbeat && old(m.GetType()) != pb.MsgSnap
+//@        && old(m.GetType()) != (old(r.state) == StatePreCandidate ? pb.MsgPreVoteResp : pb.MsgVoteResp) ==> node_unchanged(r) && result == nil
+//@   ensures #commit-monotone [C07] r.raftLog.committed >= old(r.raftLog.committed)
+//@   ensures #wf wf_raft(r) && hs_monotone(r) && typestate(r) && (r.state == StateLeader ==> wf_leader(r))
